@@ -576,7 +576,7 @@ func runRaw(r *gen.Rand, s *rawState, nops int, spread int) {
 	}
 	// drain completely: exercises tail/level shrinking down to the empty list
 	if r.Bool() {
-		for len(s.ref) > 0 {
+		for n := len(s.ref) + 2; n > 0 && len(s.ref) > 0; n-- {
 			s.del(s.ref[r.Intn(len(s.ref))].score)
 		}
 		s.del(0)
@@ -621,7 +621,8 @@ func runQueue(r *gen.Rand, s *qState, cap int64, nops int, spread int, priMode i
 		}
 	}
 	if r.Bool() {
-		for len(s.ref) > 0 {
+		// drain (bounded: a defective implementation may never get empty)
+		for n := len(s.ref) + 2; n > 0 && len(s.ref) > 0; n-- {
 			s.remove(s.ref[r.Intn(len(s.ref))].id)
 		}
 	}
